@@ -477,6 +477,8 @@ def stepAdjustPool (s : State) (sender : Addr) (id : PoolId) (add rpb : Option C
 
 def stepStake (s : State) (sender : Addr) (id : PoolId) (denom : Denom) (amt : Nat) : R :=
   if !(validPoolId id) then .error (.reject "invalid pool id") else
+  -- ValidateBasic since commit 67e8fd2: the amount must be positive
+  if amt = 0 then .error (.reject "amount must be positive") else
   match getPool s id with
   | none => .error (.reject "pool not found")
   | some p =>
@@ -537,6 +539,8 @@ def unstakeFinish (s2 : State) (sender : Addr) (id : PoolId) (amt : Nat) (f : Fa
 
 def stepUnstake (s : State) (sender : Addr) (id : PoolId) (denom : Denom) (amt : Nat) : R :=
   if !(validPoolId id) then .error (.reject "invalid pool id") else
+  -- ValidateBasic since commit 67e8fd2: the amount must be positive
+  if amt = 0 then .error (.reject "amount must be positive") else
   match getPool s id with
   | none => .error (.reject "pool not found")
   | some p =>
